@@ -73,8 +73,8 @@ func utf16Len(b []byte) int {
 	return n
 }
 
-// OffsetOf maps a position to a byte offset.  strict=true rejects positions on lines that do
-// not exist; a character past the line end clamps (LSP 3.x: "defaults back to the line length").
+// OffsetOf maps a position to a byte offset.  A line that does not exist is the end of the
+// document; a character past the line end clamps (LSP 3.x: "defaults back to the line length").
 // A position in the middle of a surrogate pair maps to the start of that character.
 func OffsetOf(b []byte, p Pos) (int, error) {
 	s, e := lineStarts(b)
@@ -82,7 +82,11 @@ func OffsetOf(b []byte, p Pos) (int, error) {
 		return 0, fmt.Errorf("negative position")
 	}
 	if p.Line >= len(s) {
-		return 0, fmt.Errorf("line %d beyond document (%d lines)", p.Line, len(s))
+		// a line past the last one: the end of the document. The specification only spells out the
+		// character rule; this is what the reference implementation of LSP text documents
+		// (vscode-languageserver-textdocument, offsetAt) does, and what a client that addresses
+		// "up to the end" as (lineCount, 0) means
+		return len(b), nil
 	}
 	off := s[p.Line]
 	units := 0
